@@ -63,13 +63,22 @@ func NewRealKafka(n int) (*RealKafka, error) {
 
 // install sets every broker's handlers from the current layout and answers.
 func (k *RealKafka) install() {
-	meta := sarama.NewMockMetadataResponse(realReporter{k})
+	// the metadata answer is built by hand (sarama's MockMetadataResponse cannot mark a partition leaderless the way a
+	// real broker does: leader -1 AND the partition error LEADER_NOT_AVAILABLE); version 2 is what a client configured
+	// for Kafka 0.10.2 asks for
+	meta := &sarama.MetadataResponse{Version: 2, ControllerID: 1}
+	var replicas []int32
 	for id, b := range k.brokers {
-		meta.SetBroker(b.Addr(), id)
+		meta.AddBroker(b.Addr(), id)
+		replicas = append(replicas, id)
 	}
 	for topic, parts := range k.layout {
 		for p, leader := range parts {
-			meta.SetLeader(topic, p, leader)
+			kerr := sarama.ErrNoError
+			if leader < 0 {
+				kerr = sarama.ErrLeaderNotAvailable
+			}
+			meta.AddTopicPartition(topic, p, leader, replicas, replicas, nil, kerr)
 		}
 	}
 	for id, b := range k.brokers {
@@ -78,7 +87,7 @@ func (k *RealKafka) install() {
 			answer = &sarama.OffsetResponse{}
 		}
 		b.SetHandlerByMap(map[string]sarama.MockResponse{
-			"MetadataRequest": meta,
+			"MetadataRequest": sarama.NewMockWrapper(meta),
 			"OffsetRequest":   sarama.NewMockWrapper(answer),
 		})
 	}
